@@ -16,6 +16,7 @@
 package main
 
 import (
+	"time"
 	"bufio"
 	"errors"
 	"fmt"
@@ -321,6 +322,7 @@ func drive() {
 			continue
 		}
 		var res string
+		hx.Progress()
 		if line == "new" {
 			w.Flush() // a crash (stack overflow is not recoverable) then loses at most the current program
 			p = newProg()
@@ -513,6 +515,9 @@ func main() {
 		return n
 	}
 	debug.SetMaxStack(512 << 20) // unbounded recursion ends in seconds, legitimate deep chains still fit
+	if os.Args[1] == "drive" || os.Args[1] == "oracle" || os.Args[1] == "judge" {
+		hx.StartWatchdog(30*time.Second, nil)
+	}
 	switch os.Args[1] {
 	case "drive":
 		drive()
